@@ -72,7 +72,7 @@ struct Peer
   }
   void Accept() { fd = ::accept(lfd, nullptr, nullptr); }
   // read exactly n bytes (or what arrives within the patience)
-  std::string Read(size_t n, int patienceMs = 3000)
+  std::string Read(size_t n, int patienceMs = 5000)
   {
     std::string out;
     std::string buf(65536, '\0');
